@@ -76,3 +76,83 @@ impl<K: PartialEq, V> VMap<K, V> {
     pub fn iter(&self) -> impl Iterator<Item = (&K, &V)> { self.items.iter().map(|e| (&e.0, &e.1)) }
     pub fn clear(&mut self) { self.items.clear() }
 }
+
+// more of the HashMap surface, so that a change in the code under test that builds a map differently (collect(),
+// extend(), get_mut(), into_iter()) still compiles against the model instead of making the check inconclusive
+impl<K: PartialEq, V> VMap<K, V> {
+    pub fn get_mut<Q: ?Sized + PartialEq>(&mut self, k: &Q) -> Option<&mut V>
+    where
+        K: Borrow<Q>,
+    {
+        let n = self.items.len();
+        let mut i = 0;
+        while i < CAP {
+            if i >= n { break; }
+            if self.items[i].0.borrow() == k {
+                return Some(&mut self.items[i].1);
+            }
+            i += 1;
+        }
+        None
+    }
+    pub fn reserve(&mut self, _n: usize) {}
+}
+impl<K: PartialEq, V> FromIterator<(K, V)> for VMap<K, V> {
+    fn from_iter<I: IntoIterator<Item = (K, V)>>(it: I) -> Self {
+        let mut m = VMap::new();
+        for (k, v) in it { m.insert(k, v); }
+        m
+    }
+}
+impl<K: PartialEq, V> Extend<(K, V)> for VMap<K, V> {
+    fn extend<I: IntoIterator<Item = (K, V)>>(&mut self, it: I) {
+        for (k, v) in it { self.insert(k, v); }
+    }
+}
+impl<K, V> IntoIterator for VMap<K, V> {
+    type Item = (K, V);
+    type IntoIter = std::vec::IntoIter<(K, V)>;
+    fn into_iter(self) -> Self::IntoIter { self.items.into_iter() }
+}
+
+// the `entry` API in the form `if let Entry::Vacant(e) = map.entry(k) { e.insert(v); }` / `.or_insert(v)`
+pub enum Entry<'a, K, V> {
+    Occupied(OccupiedEntry<'a, K, V>),
+    Vacant(VacantEntry<'a, K, V>),
+}
+pub struct OccupiedEntry<'a, K, V> { map: &'a mut VMap<K, V>, idx: usize }
+pub struct VacantEntry<'a, K, V> { map: &'a mut VMap<K, V>, key: K }
+impl<'a, K: PartialEq, V> OccupiedEntry<'a, K, V> {
+    pub fn get(&self) -> &V { &self.map.items[self.idx].1 }
+    pub fn get_mut(&mut self) -> &mut V { &mut self.map.items[self.idx].1 }
+    pub fn into_mut(self) -> &'a mut V { &mut self.map.items[self.idx].1 }
+    pub fn insert(&mut self, v: V) -> V { std::mem::replace(&mut self.map.items[self.idx].1, v) }
+}
+impl<'a, K: PartialEq, V> VacantEntry<'a, K, V> {
+    pub fn insert(self, v: V) -> &'a mut V {
+        assert!(self.map.items.len() < CAP, "VMap model: more than CAP entries");
+        self.map.items.push((self.key, v));
+        let n = self.map.items.len();
+        &mut self.map.items[n - 1].1
+    }
+}
+impl<'a, K: PartialEq, V> Entry<'a, K, V> {
+    pub fn or_insert(self, v: V) -> &'a mut V {
+        match self { Entry::Occupied(o) => o.into_mut(), Entry::Vacant(e) => e.insert(v) }
+    }
+    pub fn or_insert_with<F: FnOnce() -> V>(self, f: F) -> &'a mut V {
+        match self { Entry::Occupied(o) => o.into_mut(), Entry::Vacant(e) => e.insert(f()) }
+    }
+}
+impl<K: PartialEq, V> VMap<K, V> {
+    pub fn entry(&mut self, k: K) -> Entry<'_, K, V> {
+        let n = self.items.len();
+        let mut i = 0;
+        while i < CAP {
+            if i >= n { break; }
+            if self.items[i].0 == k { return Entry::Occupied(OccupiedEntry { map: self, idx: i }); }
+            i += 1;
+        }
+        Entry::Vacant(VacantEntry { map: self, key: k })
+    }
+}
